@@ -2,13 +2,15 @@
 from fractions import Fraction
 import common
 from common import sx, q, ok, cname, cnum
-from units import U
+from units import U, BLOCK
+from common import err
 
 ID = 'C15'
 LEVEL = 'proof'
 TIE = {'core.AllowOverhang / LevelOverhang / AdjustedSeatCount': 'correspondence',
        'proportional.HighestAverages / LargestRemainder (inner evaluators)': 'models of C01 / C02',
-       'core.LevelOverhangByConstituency, MultistageDistributor wrapping': 'implementation-side clauses only'}
+       'core.LevelOverhangByConstituency.calculate, core.ByConstituency.evaluate, AdjustedSeatCount + ByParty in a depth-2 '
+       'MultistageDistributor (DE shape)': 'correspondence (Model/OverhangByC.v, units 250-252) + implementation-side clauses'}
 RULE = ('corpus; second-vote dictionaries over 2..6 parties, house 1..40, direct-seat maps with sum <= house (parties outside the tier, '
         'parties without votes, zero entries), proportional evaluator in {D\'Hondt, Sainte-Lague, Hare largest remainder}; AllowOverhang and '
         'LevelOverhang inside AdjustedSeatCount, also wrapped in MultistageDistributor with a first-stage fixed result (NZ/DE shape). '
@@ -22,10 +24,20 @@ RULE = ('corpus; second-vote dictionaries over 2..6 parties, house 1..40, direct
         'grows by exactly the adjustment. Stream by-constituency: LevelOverhangByConstituency alone, and inside AdjustedSeatCount(.., ByParty) '
         'in a depth-2 MultistageDistributor (DE shape), on fresh objects and on objects reused for 2..4 elections, against an independent '
         'search (minimum of a tier party = sum over constituencies of max(direct, proportional)). '
+        'Streams byc-corpus / byc-model / byc-boundary: the extracted by-constituency model against LevelOverhangByConstituency.calculate, '
+        'against MultistageDistributor([first round seats, AdjustedSeatCount(calculator, ByParty)], depth=2) and against ByConstituency.evaluate: '
+        '1..3 constituencies with 0..7 seats, 2..4 parties (+ an independent with first round seats only, + first round seats in a constituency '
+        'without votes), D\'Hondt / Sainte-Lague (possibly different for constituency evaluator, overall evaluator, ByParty, allocator), apportioner '
+        'dictionary or evaluator, overall evaluator given or None, loop bound 0..80 compared exactly through a counting proxy, a quarter of the '
+        'elections on objects that answered 1..2 elections before; boundary kinds: first round seats without votes, second round parties, Tie in a '
+        'constituency, Ties in all constituencies alike, constituencies without seats, parties outside the tier using up the house. '
         'non-trivial = overhang present or a party outside the tier; distinct by case hash')
-PARTIAL = ['LevelOverhangByConstituency: no model; judged on the implementation side against an independent search (adjustment; in the DE '
-           'shape: no direct seat lost, party totals = proportional distribution of the enlarged house when all direct seats belong to tier '
-           'parties); elections with a tie inside the inner evaluator are not judged (the levelling loop does not end on a Tie)']
+PARTIAL = ['LevelOverhangByConstituency: modelled and proved over arbitrary evaluators (C15_byc_*); no termination bound for its loop (refuted '
+           'with a Tie key: C15_byc_terminates_refuted; otherwise out-of-fuel is excluded by hypothesis); max_seats not modelled; with parties '
+           'outside the tier holding first round seats no theorem links the tested house n - drop + adj to the distributed house n + adj; '
+           '"party totals = proportional distribution of the enlarged house" is proved for Tie-free results with all first round seats in the '
+           'tier (C15_byc_final_totals); '
+           'the implementation-side by-constituency stream does not judge elections with a tie inside the inner evaluator (the model streams do)']
 TRUSTED = []
 DIV = {1: 'd_hondt', 2: 'sainte_lague'}
 
@@ -461,11 +473,333 @@ def by_constituency_checks(ctx, rng, count):
     ctx.streams['by-constituency'] = dict(cases=n, deviations=bad)
 
 
-def corpus(by_constituency=False):
+# ---------------------------------------------------------------------------------------------------------------------
+# LevelOverhangByConstituency: correspondence with the extracted model (coq/Model/OverhangByC.v, unit block C15)
+#
+# case: dict(unit='byc', dc, app=['dict', [[cty, seats], ...]] | ['eval'], ov=['given', divisor] | ['default'], dn, da, fuel,
+#            votes=[[cty, [[party, votes], ...]], ...], n, prev=[[cty, [[party, seats], ...]], ...], history=[elections])
+# divisors 1 = D'Hondt, 2 = Sainte-Lague; dc constituency evaluator (and apportioner under ['eval']), ov the calculator's overall
+# evaluator, dn / da overall evaluator and allocator of ByParty.
+class _LoopBound(Exception):
+    pass
+
+
+class _Counting:
+    """Transparent proxy around an evaluator: counts evaluate() calls and stops the levelling loop (which has no bound of its own)
+    after `bound` calls.  The model's loop has the same bound as its fuel, so 'out of fuel' is compared exactly."""
+    def __init__(self, inner):
+        self.inner, self.calls, self.bound = inner, 0, None
+
+    def evaluate(self, *args, **kwargs):
+        self.calls += 1
+        if self.bound is not None and self.calls > self.bound:
+            raise _LoopBound()
+        return self.inner.evaluate(*args, **kwargs)
+
+
+def cty_name(c):
+    return 'S%d' % c
+
+
+def _byc_objects(c):
+    import votelib.evaluate.core as core, votelib.evaluate.proportional as prop
+    evc = prop.HighestAverages(DIV[c['dc']])
+    app = {cty_name(k): v for k, v in c['app'][1]} if c['app'][0] == 'dict' else evc
+    cev = core.ByConstituency(evc, apportioner=app)
+    if c['ov'][0] == 'given':
+        counter = _Counting(prop.HighestAverages(DIV[c['ov'][1]]))
+        calc = core.LevelOverhangByConstituency(constituency_evaluator=cev, overall_evaluator=counter)
+        first = 0
+    else:
+        counter = _Counting(cev)        # the default overall evaluator calls the constituency evaluator again
+        calc = core.LevelOverhangByConstituency(constituency_evaluator=counter)
+        first = 1                       # ... after the one call for the constituency results
+    stage = _FixedStage({})
+    asc = core.AdjustedSeatCount(calc, core.ByParty(prop.HighestAverages(DIV[c['dn']]), prop.HighestAverages(DIV[c['da']])))
+    ms = core.MultistageDistributor([stage, asc], depth=2)
+    return cev, calc, counter, first, stage, ms
+
+
+def _byc_election(e):
+    votes = {cty_name(k): {cname(p): v for p, v in d} for k, d in e['votes']}
+    prev = {cty_name(k): {cname(p): v for p, v in d} for k, d in e['prev']}
+    return votes, prev
+
+
+def byc_run(c):
+    """ONE set of objects per case answers the elections of c['history'] (outcomes ignored) and then the case's own election:
+    calculator alone, then the DE shape MultistageDistributor([direct seats, AdjustedSeatCount(calculator, ByParty)], depth=2)"""
+    cev, calc, counter, first, stage, ms = _byc_objects(c)
+
+    def election(e, fuel):
+        votes, prev = _byc_election(e)
+        counter.calls, counter.bound = 0, first + fuel + 1
+        r1 = common.call_impl(lambda: calc.calculate(votes, e['n'], prev_gains=prev), 20)
+        counter.calls = 0
+        stage.seats = prev
+        r2 = common.call_impl(lambda: ms.evaluate(votes, e['n']), 20)
+        counter.bound = None
+        return r1, r2, prev
+
+    for e in c.get('history', ()):
+        election(e, c['fuel'])
+    return election(c, c['fuel'])
+
+
+def _pk(k):
+    import votelib.evaluate.core as core
+    return sorted(cnum(x) for x in k) if isinstance(k, core.Tie) else cnum(k)
+
+
+def _outcome(r):
+    if r[0] == 'ok':
+        return None
+    if r[2].startswith('_LoopBound'):
+        return err(common.E['FUEL'])
+    return err(r[1])
+
+
+def byc_impl(c):
+    import votelib.evaluate.core as core
+    if c['unit'] == 'byc-cev':
+        cev = _byc_objects(c)[0]
+        votes, _ = _byc_election(c)
+        res = cev.evaluate(votes, c['n'])
+        return ok([[int(k[1:]), [[_pk(p), s] for p, s in d.items()]] for k, d in res.items()])
+    r1, r2, prev = byc_run(c)
+    c['_exc'] = ' / '.join(r[2] for r in (r1, r2) if r[0] != 'ok')
+    if r1[0] != 'ok':
+        return _outcome(r1)
+    adj = r1[1]
+    if c['unit'] == 'byc':
+        return ok(adj)
+    if r2[0] != 'ok':
+        final = [2] if r2[1] == common.E['VALUE'] else [3, r2[1]]
+    elif any(isinstance(k, core.Tie) for k in r2[1]) or any(isinstance(p, core.Tie) for d in r2[1].values() for p in d):
+        final = [1]
+    else:
+        final = [0, [[int(k[1:]), cnum(p), s - prev.get(k, {}).get(p, 0)] for k, d in r2[1].items() for p, s in d.items()]]
+    return ok([adj, final])
+
+
+def byc_canon(c, wire):
+    v = common.parse_sx(wire)
+    if v[0] != 0:
+        return ('err', common.E_NAME.get(v[1], v[1]))
+    if c['unit'] == 'byc':
+        return ('ok', v[1])
+    if c['unit'] == 'byc-cev':
+        return ('ok', tuple(sorted((k, tuple(sorted((str(sorted(p) if isinstance(p, list) else p), s) for p, s in d))) for k, d in v[1])))
+    adj, final = v[1]
+    if final[0] == 0:
+        final = ('gains', tuple(sorted((k, p, s) for k, p, s in final[1] if s)))
+    else:
+        final = {1: ('tie',), 2: ('value-error',)}.get(final[0], ('err', final[1:]))
+    return ('ok', adj, final)
+
+
+def _sxd(d):
+    return sx([[k, [[p, v] for p, v in dd]] for k, dd in d])
+
+
+def byc_model_line(c):
+    app = '(0 %s)' % sx([[k, v] for k, v in c['app'][1]]) if c['app'][0] == 'dict' else '(1)'
+    ov = '(0 (%d))' % c['ov'][1] if c['ov'][0] == 'given' else '(1)'
+    if c['unit'] == 'byc-cev':
+        return '%d ((%d) %s %s %d)' % (BLOCK['C15'] + 2, c['dc'], app, _sxd(c['votes']), c['n'])
+    if c['unit'] == 'byc':
+        return '%d ((%d) %s %s %d %s %d %s)' % (BLOCK['C15'], c['dc'], app, ov, c['fuel'], _sxd(c['votes']), c['n'], _sxd(c['prev']))
+    return '%d ((%d) %s %s (%d) (%d) %d %s %d %s)' % (BLOCK['C15'] + 1, c['dc'], app, ov, c['dn'], c['da'], c['fuel'],
+                                                       _sxd(c['votes']), c['n'], _sxd(c['prev']))
+
+
+def byc_reference(c):
+    """Independent search for the adjustment of one by-constituency election with a given overall evaluator (fresh evaluators used
+    as black boxes).  None when a Tie or a refusal of an inner evaluator leaves the property's answer open, else
+    (smallest admissible enlargement, seats of parties outside the tier, minima)."""
+    import votelib.evaluate.core as core, votelib.evaluate.proportional as prop
+    if c['ov'][0] != 'given' or c['app'][0] != 'dict':
+        return None
+    votes, direct = _byc_election(c)
+    seats = {cty_name(k): v for k, v in c['app'][1]}
+    evc, evn = prop.HighestAverages(DIV[c['dc']]), prop.HighestAverages(DIV[c['ov'][1]])
+    try:
+        cty_prop = {k: (evc.evaluate(votes[k], seats[k]) if seats.get(k, 0) else {}) for k in votes}
+        if not any(seats.get(k, 0) for k in votes):
+            return None
+        if any(isinstance(p, core.Tie) for r in cty_prop.values() for p in r):
+            return None
+        tier = {p for r in cty_prop.values() for p in r}
+        ctys = list(votes) + [k for k in direct if k not in votes]
+        minima = {p: sum(max(direct.get(k, {}).get(p, 0), cty_prop.get(k, {}).get(p, 0)) for k in ctys) for p in tier}
+        drop = sum(s for d in direct.values() for p, s in d.items() if p not in tier)
+        nat_votes = {}
+        for d in votes.values():
+            for p, v in d.items():
+                nat_votes[p] = nat_votes.get(p, 0) + v
+        for a in range(c['fuel'] + 1):
+            nat = evn.evaluate(nat_votes, c['n'] - drop + a)
+            if all(nat.get(p, 0) >= m for p, m in minima.items()):
+                return a, drop, minima
+    except Exception:   # noqa
+        return None
+    return None
+
+
+BYC_OUTCOMES = {}
+
+
+def byc_spec(c, io, mo):
+    """declarative clauses on the implementation's answer"""
+    v = common.parse_sx(io)
+    cm = byc_canon(c, mo)
+    key = 'byc-outcome:%s:%s' % (c['unit'], cm[0] if cm[0] == 'ok' and c['unit'] != 'byc-asc' else '/'.join(map(str, (cm[0], cm[2][0]) if cm[0] == 'ok' else cm)))
+    BYC_OUTCOMES[key] = BYC_OUTCOMES.get(key, 0) + 1
+    if c['unit'] == 'byc-cev':
+        return None
+    if v[0] != 0:
+        if v[1] in (common.E['VALUE'], common.E['STOP'], common.E['FUEL']):
+            return None     # house of no seats / no constituency with a seat / loop cut at the case's bound
+        if v[1] == common.E['TIMEOUT']:
+            c['_class'] = 'timeout'
+            return None
+        return 'LevelOverhangByConstituency raises %s' % c.get('_exc')
+    adj = v[1] if c['unit'] == 'byc' else v[1][0]
+    if adj < 0:
+        return 'negative adjustment %d' % adj
+    if all(s >= 0 for _, d in c['prev'] for _, s in d):
+        ref = byc_reference(c)
+        if ref is not None and ref[0] != adj:
+            return 'LevelOverhangByConstituency reports %d, the smallest admissible enlargement is %d (minima %s)' % (adj, ref[0], ref[2])
+    if c['unit'] == 'byc-asc' and v[1][1][0] == 0:
+        lost = [(k, p) for k, p, s in v[1][1][1] if s < 0]
+        if lost:
+            return 'direct seats lost in %s' % lost
+    return None
+
+
+def byc_nontrivial(c):
+    return any(s for _, d in c['prev'] for _, s in d)
+
+
+def _byc_draw(rng, boundary=None):
+    """one election (votes, prev) + configuration.  boundary in {None, 'novotes', 'second-round', 'tie', 'sym-tie', 'noseat', 'outside'}"""
+    np_, nc = rng.randint(2, 4), rng.randint(1, 3)
+    parties, ctys = list(range(1, np_ + 1)), list(range(1, nc + 1))
+    style = rng.choice(['big', 'small', 'mixed', 'tiny'])
+
+    def vote():
+        if style == 'big':
+            return rng.randint(10, 500)
+        if style == 'small':
+            return rng.randint(0, 60)
+        if style == 'tiny':
+            return rng.randint(0, 6)
+        return rng.choice([rng.randint(10, 500), rng.randint(0, 60)])
+    votes = []
+    for k in ctys:
+        ps = parties if rng.random() < 0.8 else rng.sample(parties, rng.randint(1, np_))
+        d = [[p, vote()] for p in ps]
+        if sum(v for _, v in d) == 0 and rng.random() < 0.9:
+            d[0][1] = 10
+        votes.append([k, d])
+    seats = [[k, rng.choice([0, 1, 2, 3, 4, 5, 6, 7, 2, 3, 4])] for k in ctys]
+    if rng.random() < 0.1:
+        seats = [kv for kv in seats if rng.random() < 0.7]          # a constituency missing from the apportionment: 0 seats
+    pool = parties + [np_ + 1]          # np_ + 1: a party / independent without votes anywhere
+    prev = []
+    for k in ctys + ([nc + 1] if rng.random() < 0.08 else []):      # nc + 1: direct seats in a constituency without votes
+        if rng.random() < 0.25:
+            continue
+        d = [[p, rng.choice([0, 1, 1, 2, 3])] for p in rng.sample(pool, rng.randint(0, len(pool)))]
+        prev.append([k, d])
+    if boundary == 'novotes':
+        # a party holds direct seats in a constituency where it has no votes (absent from the constituency's votes or 0 votes)
+        k, d = rng.choice(votes)
+        p = rng.choice(parties)
+        if rng.random() < 0.5:
+            d[:] = [pv for pv in d if pv[0] != p] or [[p % np_ + 1, 10]]
+        else:
+            for pv in d:
+                if pv[0] == p:
+                    pv[1] = 0
+        prev = [kv for kv in prev if kv[0] != k] + [[k, [[p, rng.randint(1, 3)]]]]
+    elif boundary == 'second-round':
+        # a party with list seats in one constituency and direct seats (but hardly a list seat) in another: repair d14cd5d
+        if nc < 2:
+            votes.append([2, [[p, vote()] for p in parties]])
+            seats.append([2, rng.randint(1, 4)])
+            ctys, nc = [1, 2], 2
+        p = rng.choice(parties)
+        for pv in votes[0][1]:
+            if pv[0] == p:
+                pv[1] = 400
+        votes[1][1] = [[q_, (1 if q_ == p else rng.randint(100, 300))] for q_ in parties]
+        prev = [kv for kv in prev if kv[0] != votes[1][0]] + [[votes[1][0], [[p, rng.randint(1, 3)]]]]
+    elif boundary in ('tie', 'sym-tie'):
+        # equal votes inside a constituency: the inner evaluator answers with a Tie key; 'sym-tie': every constituency alike, so that
+        # the national result can carry the same Tie
+        k, d = rng.choice(votes)
+        tied = rng.sample(parties, rng.randint(2, np_))
+        x = rng.randint(1, 30)
+        d[:] = [[p, x if p in tied else rng.choice([x, rng.randint(0, 40)])] for p in parties]
+        if boundary == 'sym-tie':
+            mult = [rng.choice([1, 1, 2, 3]) for _ in votes]
+            votes = [[kk, [[p, v * m] for p, v in d]] for (kk, _), m in zip(votes, mult)]
+            if rng.random() < 0.7:
+                s0 = rng.randint(1, 5)
+                seats = [[kk, s0] for kk in ctys]
+    elif boundary == 'noseat':
+        for kv in seats:
+            if rng.random() < 0.6:
+                kv[1] = 0
+    elif boundary == 'outside':
+        # many direct seats of parties outside the tier: n - drop small, zero or negative
+        prev = [[k, [[np_ + 1, rng.randint(1, 4)]] + [[p, rng.randint(0, 1)] for p in rng.sample(parties, rng.randint(0, np_))]] for k in ctys]
+    return votes, seats, prev
+
+
+def gen_byc(rng, count, dist=None, boundary=False):
+    """cases for the by-constituency correspondence: calculator alone ('byc'), inside AdjustedSeatCount / ByParty / MultistageDistributor
+    ('byc-asc'), and the constituency evaluator alone ('byc-cev'); a quarter of the elections are answered by objects that have
+    answered 1..2 other elections before (history)."""
+    made = 0
+    kinds = ['novotes', 'second-round', 'tie', 'sym-tie', 'noseat', 'outside']
+    while made < count:
+        b = rng.choice(kinds) if boundary else None
+        votes, seats, prev = _byc_draw(rng, b)
+        total = sum(s for _, s in seats)
+        n = total if rng.random() < 0.7 else max(0, total + rng.randint(-3, 3))
+        if b == 'outside' and rng.random() < 0.5:
+            n = rng.randint(0, 6)
+        dc = rng.choice([1, 2])
+        same = rng.random() < 0.7
+        cfg = dict(dc=dc, app=['dict', seats] if rng.random() < 0.8 else ['eval'],
+                   ov=['given', dc if same else rng.choice([1, 2])] if rng.random() < 0.85 else ['default'],
+                   dn=dc if same else rng.choice([1, 2]), da=dc if same else rng.choice([1, 2]),
+                   fuel=rng.choice([0, 2, 60, 80, 80, 80, 80, 80]))
+        unit = rng.choice(['byc', 'byc', 'byc-asc', 'byc-asc', 'byc-asc', 'byc-cev'])
+        history = []
+        if unit != 'byc-cev' and rng.random() < 0.25:
+            for _ in range(rng.randint(1, 2)):
+                hv, _, hp = _byc_draw(rng, b)
+                ks = [k for k, _ in votes]
+                history.append(dict(votes=[kv for kv in hv if kv[0] in ks] or votes, prev=hp if rng.random() < 0.5 else prev, n=n))
+        if dist is not None:
+            dist['byc-%s:%s' % ('boundary' if boundary else 'random', b or unit)] += 1
+            dist['byc-config:app=%s,ov=%s' % (cfg['app'][0], cfg['ov'][0])] += 1
+        made += 1
+        yield dict(unit=unit, votes=votes, prev=prev, n=n, history=history, **cfg)
+
+
+def corpus(by_constituency=False, model=False):
+    """committed witnesses: single-tier cases, by-constituency cases for the implementation-side clauses ('cty_seats'), and
+    by-constituency cases for the correspondence with the model (unit 'byc*')"""
     import os, json, glob
     for p in sorted(glob.glob(os.path.join(common.VERIF, 'corpus', ID, '*.json'))):
         c = json.load(open(p))
-        if ('cty_seats' in c) == by_constituency:
+        is_model = str(c.get('unit', '')).startswith('byc')
+        if is_model == model and (model or ('cty_seats' in c) == by_constituency):
             yield c
 
 
@@ -476,10 +810,20 @@ def explore(ctx, widen=1):
     ctx.differential('reuse', gen_reuse(ctx.rng, ctx.n(350, 4000) * widen, ctx.dist), model_line, impl, **kw)
     ctx.differential('alabama', gen_alabama(ctx.rng, ctx.n(300, 3000) * widen), model_line, impl, **kw)
     by_constituency_checks(ctx, ctx.rng, ctx.n(400, 5000))
+    kb = dict(canon=byc_canon, nontrivial=byc_nontrivial, spec=byc_spec, known_class=known_class, limit=60)
+    ctx.differential('byc-corpus', corpus(model=True), byc_model_line, byc_impl, **kb)
+    ctx.differential('byc-model', gen_byc(ctx.rng, ctx.n(2500, 40000) * widen, ctx.dist), byc_model_line, byc_impl, **kb)
+    ctx.differential('byc-boundary', gen_byc(ctx.rng, ctx.n(2500, 40000) * widen, ctx.dist, boundary=True), byc_model_line, byc_impl, **kb)
+    for k, v in BYC_OUTCOMES.items():
+        ctx.dist[k] += v
 
 
 def replay(ctx, case, stream=None):
     if stream == 'by-constituency' or 'cty_seats' in case:
         bc_check(ctx, case)
+        return
+    if str(case.get('unit', '')).startswith('byc'):
+        ctx.differential('replay', [case], byc_model_line, byc_impl, canon=byc_canon, nontrivial=byc_nontrivial, spec=byc_spec,
+                         known_class=known_class, limit=60)
         return
     ctx.differential('replay', [case], model_line, impl, canon=canon, nontrivial=nontrivial, spec=spec, known_class=known_class)
